@@ -70,6 +70,7 @@ def presentation(rng, spec, k):
     opts['node_orders'], opts['edge_orders'] = no, eo
     opts['explicit_ids'] = rng.random() < 0.5
     opts['nt_decl_first'] = rng.random() < 0.5
+    opts['start_via_setter'] = rng.random() < 0.4
     if rng.random() < 0.6:
         names = list(spec['domains']) + list(spec['terminals']) + list(spec['nonterminals'])
         pool = [f'{rng.choice("zyxwab")}{i}_{rng.randrange(100)}' for i in range(len(names))]
